@@ -83,6 +83,9 @@ pub enum Via {
     OrRescued(u8),
     /// `compgen -F nosuchfn_c16 x 2>/dev/null || simexit 0` (a completion function that cannot run)
     CompgenMissing,
+    /// a background job that ends in a shell error and has finished before the next command is
+    /// read: `{ : ${UNSET?boom}; } &`, `simsleep 2`, `wait || simexit 0`
+    BgJobError,
 }
 
 #[derive(Clone, Debug, Serialize, Deserialize, PartialEq)]
@@ -184,6 +187,7 @@ impl Renderer {
                 Via::Bang => "! true".to_string(),
                 Via::OrRescued(s) => format!("simexit {s} || simexit 0"),
                 Via::CompgenMissing => "compgen -F nosuchfn_c16 x 2>/dev/null || simexit 0".to_string(),
+                Via::BgJobError => "{ : ${UNSET_C16_BG?boom}; } &\nsimsleep 2\nwait || simexit 0".to_string(),
             },
             Node::Subshell(b) => format!("(\n{}\n)", self.block(b)),
             Node::CmdSubst(b) => {
@@ -403,7 +407,7 @@ impl Model {
                     st.status = 1;
                     Flow::Continue
                 }
-                Via::OrRescued(_) | Via::CompgenMissing => {
+                Via::OrRescued(_) | Via::CompgenMissing | Via::BgJobError => {
                     st.status = 0;
                     Flow::Continue
                 }
@@ -586,8 +590,9 @@ fn gen_block2(rng: &mut Rng, depth: u32, main_ctx: bool, in_eval: bool, in_func:
                 if rng.below(3) == 0 {
                     // (Via::Bang is not generated: side finding, brush applies errexit and the ERR
                     // trap to a compound command whose status came from a `!` pipeline)
-                    Node::StatusVia(match *rng.pick(&[0u64, 1, 2, 3, 5, 6]) {
+                    Node::StatusVia(match *rng.pick(&[0u64, 1, 2, 3, 5, 6, 7]) {
                         6 => Via::CompgenMissing,
+                        7 => Via::BgJobError,
                         0 => Via::Assign(*rng.pick(&[0u8, 3, 7])),
                         1 => Via::Arith,
                         2 => Via::Cond,
